@@ -187,8 +187,12 @@ def check_bingham(b, max_conc, kind, eps=1e-8):
                 f'min {lam.min()} < -{max_conc}', kind=kind)
     D = V.shape[-1]
     gram = np.einsum('...dk,...dl->...kl', V.conj(), V)
-    require(np.max(np.abs(gram - np.eye(D))) <= 1e-8,
-            'bingham-eigenvectors-unitary', '', kind=kind)
+    # (eigenvectors come in the precision of the scatter matrix: single for
+    # single-precision observations weighted by a boolean / integer partition)
+    utol = 1e-3 if np.asarray(V).dtype == np.complex64 else 1e-8
+    err = float(np.max(np.abs(gram - np.eye(D))))
+    require(err <= utol, 'bingham-eigenvectors-unitary', f'max |V^H V - I| = {err:.3e}',
+            kind=kind)
 
 
 def check_model(model, case, first=False):
